@@ -904,6 +904,10 @@ func (x *Exec) forStmt(n *ast.ForStmt, st *St, fr *Frame, k func(*St)) {
 		x.loopHavoc(hv, fr, nodes, key)
 		x.assumeInvariants(hv, fr, c, key, nil)
 		x.assumeWF(hv)
+		var m0 *Term
+		if c != nil && c.Decreases != nil {
+			m0 = x.loopMeasure(hv, fr, c, key, nil)
+		}
 		afterCond := func(hv *St, cond *Term) {
 			// exit path
 			ex := hv.clone()
@@ -919,7 +923,6 @@ func (x *Exec) forStmt(n *ast.ForStmt, st *St, fr *Frame, k func(*St)) {
 				return
 			}
 			body.note("loop %s: arbitrary iteration", key)
-			m0 := x.loopMeasure(body, fr, c, key, nil)
 			endIter := func(st *St) {
 				after := func(st *St) {
 					x.checkInvariants(st, fr, c, key, "keep", nil, n.Pos())
